@@ -907,4 +907,87 @@ theorem parsed_edgeRT (env : DepEnv) (a : Contracts.Parser.Ast) (h : a.Wf) {g : 
     obtain rfl : g' = g := Except.ok.inj (hg'.symm.trans e)
     exact edgeRT_of_plain R.wf hp
 
+/-! ### the string round trip without the `EdgeRT` hypothesis -/
+
+section StringRT
+open Contracts.RoundTrip (V4 graphFromTucan)
+open Contracts.Parser (PTree)
+
+/-- the graph parsed from a string the pipeline emitted has empty bond data and satisfies `EdgeRT` -/
+theorem parsed_of_tucan_edgeRT (antlr : Str → Option PTree) (hV4 : V4 antlr) {env : DepEnv} (envp : DepEnv)
+    (hs : env.SetLawful) (hb : BlissLawful env)
+    {m g : Graph} {s : Str} (hm : Contracts.RoundTrip.MolOK m) (hne : m.nodeList ≠ []) (hcode : InvariantCodeOK m)
+    (fuel : Nat) (hf : fuel ≥ fuelBound m)
+    (e : tucan env fuel m = .ok s) (p : graphFromTucan antlr envp s = .ok g) :
+    Contracts.Parser.Plain g ∧ ∀ e ∈ g.edgesData, Writer.EdgeRT e := by
+  have okm := Contracts.Final.MolOK.idOK hm hcode
+  obtain ⟨c, ρ, hcan, wc, pc, ic'⟩ := Contracts.RoundTrip.canonicalize_facts hs hb hm.wf hne okm.carries_code fuel
+    (le_trans (Contracts.Pipeline.length_le_fuelBound m) hf)
+  have i' : ∀ k ∈ Contracts.RoundTrip.idKeys, Graph.IsIsoOn k ρ m c :=
+    fun k hk => ic' k (Contracts.RoundTrip.idKeys_ne_partition hk)
+  have okc : Contracts.RoundTrip.MolOK c := hm.of_iso wc i'
+  obtain ⟨ms, σ, hser, sm, -⟩ := Contracts.RoundTrip.serialize_molecule_sorted env hs fuel okc pc
+    (by rw [Contracts.RoundTrip.fuelBound_iso (i' "mass" (by decide))]; exact hf)
+  have hs' : s = Contracts.Layout.tucanSpec ms := by
+    unfold tucan at e
+    simp only [hcan, hser, ok_bind, pure_eq_ok] at e
+    exact (Except.ok.inj e).symm
+  subst hs'
+  unfold graphFromTucan at p
+  rw [Contracts.RoundTrip.tucanSpec_eq_render, hV4 _ sm.astOf_wf sm.in_grammar] at p
+  exact ⟨graph_from_tree_plain envp _ sm.astOf_wf p, parsed_edgeRT envp _ sm.astOf_wf p⟩
+
+/-- **C09 (string → graph → molfile → graph → string) without the `EdgeRT` hypothesis, with bond types.**  As
+`Final.C09_string`, but the writer's side condition on edges is proved (the parser's bonds carry no `bond_type`, the
+writer writes them as type 1); in addition the graph read back has exactly the bonds of the parsed graph `g`, each
+carrying `{bond_type: 1}`. -/
+theorem C09_string_bonds (antlr : Str → Option PTree) (hV4 : V4 antlr) {env env₂ : DepEnv} (envp envw : DepEnv)
+    (hs : env.SetLawful) (hs₂ : env₂.SetLawful) (hb : BlissLawful env)
+    (hcp : env₂.canonicalPermutation = env.canonicalPermutation)
+    (hpv : env₂.permuteVertices = env.permuteVertices)
+    {m g : Graph} {s : Str} (hm : Contracts.RoundTrip.MolOK m) (hne : m.nodeList ≠ []) (hcode : InvariantCodeOK m)
+    (hradm : ∀ i ∈ m.nodeList, ∀ r : Int, m.attr i "rad" = some (Val.int r) → r ≤ 3)
+    (fuel : Nat) (hf : fuel ≥ fuelBound m)
+    (e : tucan env fuel m = .ok s) (p : graphFromTucan antlr envp s = .ok g)
+    (wfuel rfuel : Nat)
+    (hn : ∀ p ∈ g.nodesData, Writer.NodeRT envw p)
+    (hnb : g.edgesData.length < 10 ^ 4300)
+    (hv : Writer.Plain envw.version) (hsP : Writer.Plain envw.nowStamp) (hp : Writer.PlainValues envw g)
+    (hfw : Writer.maxLen (Writer.logicalLines envw g) / 71 + 1 ≤ wfuel)
+    (hfr : (Writer.fileLines envw g).length + 1 ≤ rfuel) :
+    ∃ text g₂, Tucan.molfile_writer.graph_to_molfile envw wfuel g false = .ok text ∧
+      Tucan.molfile_reader.graph_from_molfile_text envw rfuel text = .ok g₂ ∧
+      (∀ fuel' ≥ fuelBound m, tucan env₂ fuel' g₂ = .ok s) ∧
+      (∀ u ∈ g.nodeList, ∀ v ∈ g.nodeList,
+        g₂.edgeAttrs (posOf g.nodeList u) (posOf g.nodeList v) = (g.edgeAttrs u v).map (fun _ => bondAttrs 1)) := by
+  obtain ⟨⟨π, iso⟩, okg, hne', _, idg, fb, hrun⟩ :=
+    Contracts.Final.C03_fixpoint antlr hV4 envp hs hs hb rfl rfl hm hne hcode fuel hf e p
+  obtain ⟨hplain, he⟩ := parsed_of_tucan_edgeRT antlr hV4 envp hs hb hm hne hcode fuel hf e p
+  have hradg : ∀ i ∈ g.nodeList, ∀ r : Int, g.attr i "rad" = some (Val.int r) → r ≤ 3 := by
+    intro i hi r hr
+    have r4 := iso "rad" (by decide)
+    obtain ⟨a, ha, rfl⟩ := List.mem_map.1 (r4.nodes.mem_iff.1 hi)
+    rw [r4.attr a ha] at hr
+    exact hradm a ha r hr
+  have hna : g.nodesData.length < 10 ^ 4300 := by
+    have : g.nodesData.length = g.nodeList.length := by simp [Graph.nodesData, Graph.nodeList, Dict.keys]
+    rw [this]; exact okg.small
+  obtain ⟨text, g₂, w, r, _, hsame, _, _, hed, _⟩ := C09_tucan_bonds envw hs hs₂ hb hcp hpv idg okg.loopless hne' hradg
+    wfuel rfuel hn he hna hnb hv hsP hp hfw hfr
+  refine ⟨text, g₂, w, r, ?_, ?_⟩
+  · intro fuel' hfu'
+    obtain ⟨s', e1, e2⟩ := hsame (fuelBound g) le_rfl fuel' (by rw [fb]; exact hfu')
+    rw [hrun (fuelBound g) le_rfl] at e1
+    cases e1
+    exact e2
+  · intro u hu v hv
+    rw [hed u hu v hv]
+    cases hq : g.edgeAttrs u v with
+    | none => rfl
+    | some d =>
+      rw [hplain u v d hq]
+      rfl
+
+end StringRT
+
 end Contracts.Bonds
